@@ -242,7 +242,7 @@ func runC04(c *core.Ctx) {
 	res.Assume("object graphs are acyclic by construction (depth budget)")
 	res.Assume("entries of Go maps are compared as multisets; paths of anonymous (StructOf) types follow the library's naming rule reproduced by the reference")
 	rng := c.Rng("graphs")
-	N := c.Pick(1200, 15000)
+	N := c.Pick(1200, 9000)
 	for i := 0; i < N; i++ {
 		depth := rng.Intn(c.Pick(5, 6))
 		mk := func() *C04Node { return c04Node(rng, depth) }
@@ -302,7 +302,7 @@ func runC04(c *core.Ctx) {
 	seq := 0
 	plan := tagPlan{TagNames: []string{"valid"}, Style: gen.MsgUnique, MaxRules: 2, Unknown: true, seq: &seq} // names nobody registered: their clause carries the path like any other
 	to := gen.TypeOpts{MaxFields: 3, MaxDepth: 4, Leaf: []reflect.Type{gen.TString, gen.TInt, gen.TUint8, gen.TFloat64}, Unexported: true, Ptr: true, PtrPtr: true, Slices: true, Arrays: true, Maps: true, Tag: plan.ruleTag}
-	M := c.Pick(400, 6000)
+	M := c.Pick(400, 4000)
 	for i := 0; i < M; i++ {
 		t := gen.RandStruct(rng, to)
 		if i%40 == 7 {
